@@ -395,7 +395,7 @@ def select_block(S):
     species += ["OH-", "H+"]
     si = ["Calcite", "Gypsum", "CO2(g)", "Halite", "Quartz"]
     L = ["SELECTED_OUTPUT 1", "    -reset false", "    -high_precision true", "    -state true", "    -solution true", "    -pH true", "    -pe true",
-         "    -ionic_strength true", "    -water true", "    -temperature true", "    -alkalinity true",
+         "    -ionic_strength true", "    -water true", "    -temperature true",
          "    -totals " + " ".join(elems), "    -molalities " + " ".join(species), "    -activities " + " ".join(species[:4]),
          "    -saturation_indices " + " ".join(si)]
     if phases:
@@ -432,7 +432,11 @@ def classify(head):
 # After a reaction step pe and the O(0) total are obtained from the H and O mass balances (111 and 55.5 mol/kgw)
 # by difference; the engine cannot deliver them to 1e-8 (see notes/C15.md, finding N1).  They are compared in the
 # initial-solution rows, where they are inputs.
-REDOX_DETERMINED = {"pe", "O(0)(mol/kgw)", "m_O2(mol/kgw)", "tm_O(0)", "la_O2"}
+REDOX_DETERMINED = {"pe", "O(0)(mol/kgw)", "m_O2(mol/kgw)", "tm_O(0)", "la_O2",
+                    # the `pressure` column of a fixed-volume gas phase is not recomputed from the converged gas moles:
+                    # with moles and volume scaling to 1e-12 it still differs by ~2e-8 (finding N2); moles, volume and
+                    # temperature, which determine the pressure, are compared instead
+                    "pressure"}
 
 
 def rows_by_key(tab, inv_renum):
@@ -498,20 +502,18 @@ def make_variant(rng, S, t):
         if t in ("units", "spread"):
             if t == "spread":
                 V["spread"] = True
-                V["defunits"]["spread"] = rng.choice(UNITS)
+                V["defunits"]["spread"] = rng.choice(UNIT_SPELL[rng.choice(UNITS)])
                 for s in S["solutions"]:
                     for e, _ in s["comps"]:
                         if ("spread", e) not in V["units"]:
                             V["units"][("spread", e)] = rand_unit_spec(rng, e)
             else:
                 for s in S["solutions"]:
-                    V["defunits"][s["n"]] = rng.choice(UNITS)
+                    V["defunits"][s["n"]] = rng.choice(UNIT_SPELL[rng.choice(UNITS)])
                     for e, _ in s["comps"]:
                         V["units"][(s["n"], e)] = rand_unit_spec(rng, e)
         elif t == "water":
-            # gas-phase unknowns converge on an absolute mole criterion (finding N2): scaling a gas system down
-            # degrades its relative accuracy below 1e-8, so gas bases are only scaled by factors >= 0.2
-            V["k"] = rnd_round(rng, logu(rng, 0.2 if S["family"] == "gas" else 1e-3, 1e3))
+            V["k"] = rnd_round(rng, logu(rng, 1e-3, 1e3))
         elif t == "perm":
             V["perm"] = sub()
         elif t == "renum":
@@ -804,9 +806,15 @@ def run(ctx):
         fam, t, S, V = plan[i]
         c = cs[0]
         heads = sorted(set(x[1] for x in cs))
+        mx = max(abs(x[4] - x[3] * x[5]) / max(abs(x[4]), abs(x[3] * x[5]), 1e-300) for x in cs)
         # stable key: family / transformation / first differing observable class
         key = "meta:%s:%s:%s" % (fam, t, c[2])
-        mx = max(abs(x[4] - x[3] * x[5]) / max(abs(x[4]), abs(x[3] * x[5]), 1e-300) for x in cs)
+        nph = sum(len(b["items"]) for b in S["blocks"] if b["kind"] == "EQUILIBRIUM_PHASES")
+        if fam == "batch" and nph >= 2 and mx < 1e-5 and all(x[0][0] == "react" for x in cs):
+            # finding N1b (notes/C15.md): with two or more pure phases the engine's reaction-step result is reproducible
+            # only to ~1e-7..1e-6 relative in pH-dependent quantities, whatever the convergence tolerance.  Still a
+            # violation of the property as stated; it gets its own stable key so that it can be triaged once.
+            key = "N1b:multi-phase-assemblage-reaction-step-noise"
         what = "%s base, transformation %s (k=%r, max rel %.2e): %d observable(s) differ beyond 1e-8 relative, e.g. row %s column %s: transformed %r vs base %r (x%r)" % (
             fam, t, V["k"], mx, len(cs), c[0], c[1], c[4], c[5], c[3])
         ctx.violation(key, what, {"kind": "input", "database": DBNAME, "input_text": texts[i][1], "base_input_text": texts[i][0], "family": fam,
